@@ -108,6 +108,15 @@ route("am2DCM(NED)", DN, "c0s", "A", "free")(lambda a, m, d: ori.am2DCM(a, m, fr
 route("am2DCM(ENU)", UP, "0cs", "A", "free")(lambda a, m, d: ori.am2DCM(a, m, frame="ENU"))
 route("am2q(NED)", DN, "c0s", "Bq", "closed", 1e-7)(lambda a, m, d: ori.am2q(a, m, frame="NED"))
 route("am2q(ENU)", UP, "0cs", "Bq", "closed", 1e-7)(lambda a, m, d: ori.am2q(a, m, frame="ENU"))
+# ---- the local frame is an option spelled in any letter case (every function validates it with frame.upper())
+route("ecompass(ned)", UP, "c0s", "B", "free")(lambda a, m, d: ori.ecompass(a, m, frame="ned"))
+route("ecompass(Ned,quaternion)", UP, "c0s", "B", "closed", 1e-7)(lambda a, m, d: ori.ecompass(a, m, frame="Ned", representation="quaternion"))
+route("ecompass(enu)", UP, "0cs", "B", "free")(lambda a, m, d: ori.ecompass(a, m, frame="enu"))
+route("am2DCM(ned)", DN, "c0s", "A", "free")(lambda a, m, d: ori.am2DCM(a, m, frame="ned"))
+route("am2DCM(Enu)", UP, "0cs", "A", "free")(lambda a, m, d: ori.am2DCM(a, m, frame="Enu"))
+route("am2q(ned)", DN, "c0s", "Bq", "closed", 1e-7)(lambda a, m, d: ori.am2q(a, m, frame="ned"))
+route("am2q(enu)", UP, "0cs", "Bq", "closed", 1e-7)(lambda a, m, d: ori.am2q(a, m, frame="enu"))
+route("TRIAD(frame=enu,v2).A", DN, "0c-s", "A", "free")(lambda a, m, d: F.TRIAD(a, m, v2=np.array(href("0c-s", d), dtype=float), frame="enu").A)
 ROUTES = R
 
 
